@@ -33,19 +33,27 @@ let opts_of x = match list x with
 
 let show_hunk h =
   L [N (int_of_n h.h_start); N (int_of_n h.h_end); N (int_of_n h.h_ostart); N (int_of_n h.h_oend);
-     show_str h.h_sha; show_str h.h_author; N (if h.h_boundary then 1 else 0); show_opt_str h.h_ai_human]
+     show_str h.h_sha; show_str h.h_author; N (if h.h_boundary then 1 else 0); show_opt_str h.h_ai_human;
+     show_str h.h_path]
 
-(* in: PATH OPTS TEXT ((SHA NOTE)...) ((HASH TOOL HUMAN)...)
+(* the quoted branch of utils::unescape_git_path (git's C-style quoting undone) is an environment function:
+   a table QUOTED -> PATH computed by the check; a quoted name outside the table stays as it is *)
+let dq_of x =
+  let tbl = List.map (fun e -> match list e with [q; u] -> (str_of q, str_of u) | _ -> failwith "unq") (list x) in
+  fun s -> match lookup_p tbl s with Some u -> u | None -> s
+
+(* in: PATH OPTS TEXT ((SHA NOTE)...) ((HASH TOOL HUMAN)...) ((QUOTED PATH)...)
    out: (hunks H...) (lines (L NAME)...) (prompts HASH...) (json (KEY ID)...) | err | panic *)
 let c09_pipe body =
   match parse_many body with
-  | [path; o; text; notes; foreign] ->
+  | [path; o; text; notes; foreign; unq] ->
       let o = opts_of o in
+      let dq = dq_of unq in
       let ntbl = List.map (fun e -> match list e with [s; nt] -> (str_of s, note_of nt) | _ -> failwith "notes") (list notes) in
       let ftbl = prompts_of foreign in
       let nf = lookup ntbl and ff = lookup_p ftbl in
       let path = str_of path and text = str_of text in
-      (match blame_hunks o nf ff path text with
+      (match blame_hunks dq o nf ff path text with
        | Ok hs ->
            let ols = overlay o nf ff path hs in
            let la = line_authors ols and prs = prompt_records ols in
@@ -62,10 +70,10 @@ let c09_pipe body =
        | Panic -> "panic")
   | _ -> failwith "c09-pipe: bad case"
 
-(* in: TEXT   out: (hunks H...) | err | panic *)
+(* in: TEXT ((QUOTED PATH)...)   out: (hunks H...) | err | panic *)
 let c09_parse body =
   match parse_many body with
-  | [text] -> (match parse_line_porcelain (str_of text) with
+  | [text; unq] -> (match parse_line_porcelain (dq_of unq) (str_of text) with
       | Ok hs -> show (L (Sym "hunks" :: List.map show_hunk hs))
       | Err -> "err" | Panic -> "panic")
   | _ -> failwith "c09-parse: bad case"
